@@ -385,10 +385,11 @@ class Gen:
     def host_rule(self):
         self.has_host = True
         r = self.r.random()
+        sp = self.pick(["host"] * 8 + ["HOST", "Host"])
         if r < 0.7:
-            return {"t": "host", "decls": self.declarations(), "combo": None}
+            return {"t": "host", "decls": self.declarations(), "combo": None, "host_spelling": sp}
         combo = self.pick(["func", "class", "descendant", "list", "attr", "attr-desc", "pseudo", "id"])
-        return {"t": "host", "decls": self.declarations(), "combo": combo}
+        return {"t": "host", "decls": self.declarations(), "combo": combo, "host_spelling": sp}
 
     def at_rule(self, depth, sel_depth):
         kind = self.pick(["media", "media", "supports", "document", "layer", "container", "scope", "starting-style", "keyframes", "font-face", "statement", "page"])
@@ -412,10 +413,20 @@ class Gen:
             return {"t": "at", "name": "media", "pre": pre, "body": "rules", "rules": self.rules(depth - 1, sel_depth)}
         if kind == "supports":
             pre = [T("(", None, "(", ctx="prelude", ws=True), ident("display", ctx="prelude"), simple(":", ctx="prelude"), ident("grid", ctx="prelude", ws=self.chance(0.5)), simple(")", ctx="prelude")]
+            if self.chance(0.3):
+                # a declaration value with a dotted token: not a class selector
+                pre = [T("(", None, "(", ctx="prelude", ws=True), ident("font", ctx="prelude"), simple(":", ctx="prelude"), T("dim", None, "1px", num=1.0, int=1, unit="px", ctx="prelude", ws=True), ident("a", ctx="prelude", ws=True, wsmean="must"), delim(".", ctx="prelude", wsmean="mustnot"), ident("b", ctx="prelude", wsmean="mustnot"), simple(")", ctx="prelude")]
+            if self.chance(0.25):
+                # ... and selector(), which does hold a selector
+                pre += [ident("and", ctx="prelude", ws=True), func("selector", ctx="prelude", ws=True, wsmean="must"), delim(".", ctx="prelude"), ident(self.pick(CLASSES), ctx="prelude", cls=True, wsmean="mustnot"), simple(")", ctx="prelude")]
+                self.n_class += 1
             return {"t": "at", "name": "supports", "pre": pre, "body": "rules", "rules": self.rules(depth - 1, sel_depth)}
         if kind == "document":
             pre = [func("url-prefix", ctx="prelude", ws=True), string("https://x"), simple(")", ctx="prelude")]
-            return {"t": "at", "name": "document", "pre": pre, "body": "rules", "rules": self.rules(depth - 1, sel_depth)}
+            if self.chance(0.4):
+                pre = [func("domain", ctx="prelude", ws=True), ident("mozilla", ctx="prelude"), delim(".", ctx="prelude", wsmean="mustnot"), ident("org", ctx="prelude", wsmean="mustnot"), simple(")", ctx="prelude")]
+            # (the vendor-prefixed form is the one that shipped)
+            return {"t": "at", "name": self.pick(["document", "-moz-document"]), "pre": pre, "body": "rules", "rules": self.rules(depth - 1, sel_depth)}
         if kind == "layer":
             pre = self.pick([[ident("base", ctx="prelude", ws=True)], [ident("theme", ctx="prelude", ws=True)], [], [ident("fw", ctx="prelude", ws=True), delim(".", ctx="prelude", wsmean="mustnot"), ident("ui", ctx="prelude", wsmean="mustnot")]])
             return {"t": "at", "name": "layer", "pre": pre, "body": "rules", "rules": self.rules(depth - 1, sel_depth)}
@@ -424,6 +435,8 @@ class Gen:
             n = self.numeric()
             n.ctx = "prelude-block"
             pre.extend([n, simple(")", ctx="prelude")])
+            if self.chance(0.3):
+                pre += [ident("and", ctx="prelude", ws=True), func("style", ctx="prelude", ws=True, wsmean="must"), ident("--theme", ctx="prelude"), simple(":", ctx="prelude"), ident("a", ctx="prelude", ws=True), delim(".", ctx="prelude", wsmean="mustnot"), ident("b", ctx="prelude", wsmean="mustnot"), simple(")", ctx="prelude")]
             return {"t": "at", "name": "container", "pre": pre, "body": "rules", "rules": self.rules(depth - 1, sel_depth)}
         if kind == "scope":
             pre = [T("(", None, "(", ctx="prelude", ws=True), delim(".", ctx="sel"), ident(self.pick(CLASSES), ctx="sel", cls=True, wsmean="mustnot"), simple(")", ctx="prelude")]
